@@ -745,3 +745,205 @@ Proof.
       cbn [snd]. rewrite upd_length. apply nth_error_Some. congruence.
   - exact H.
 Qed.
+
+(* ------------------------------------------------------------------------------------------ *)
+(* every reachable state                                                                        *)
+(* ------------------------------------------------------------------------------------------ *)
+Lemma FI_finit thr : FI (finit thr).
+Proof.
+  unfold FI, finit. cbn [f_p f_thr f_lock f_hand p0 p_pool p_eps].
+  split; [|split; [|split; [|split]]].
+  - intros k e X; discriminate.
+  - intros [|e] u X; discriminate.
+  - intros [|e] u X; discriminate.
+  - intros i t. rewrite nth_error_map. destruct (nth_error thr i) as [[[[k d] g] out]|]; cbn; [|discriminate].
+    intros X; inversion X; subst t. exact I.
+  - intros x [].
+Qed.
+
+Lemma FI_fstep s l : FI s -> FI (fstep s l).
+Proof. destruct l as [i|o]; [apply FI_fthr|apply FI_fop]. Qed.
+
+Lemma FI_frun thr sched : FI (frun thr sched).
+Proof.
+  unfold frun. generalize (FI_finit thr). generalize (finit thr).
+  induction sched as [|l r IH]; intros s H; cbn; auto. apply IH. now apply FI_fstep.
+Qed.
+
+Lemma quiescent_no_hd s e : fquiescent s = true -> ~ hd (f_thr s) e.
+Proof.
+  unfold fquiescent. intros Q (i & t & Ht & Hh). rewrite forallb_forall in Q.
+  specialize (Q t (nth_error_In _ _ Ht)). unfold gdone in Q.
+  destruct Hh as [[Y|Y]|Y]; rewrite Y in Q; discriminate.
+Qed.
+
+(* (1) every dialled endpoint: transport closed at most once, exactly when the endpoint is closed; once all
+   callers have returned, an endpoint that is not the pool's entry for its key has been closed *)
+Lemma C13_fine_close_once_proof :
+  forall thr sched e u,
+    let s := frun thr sched in
+    nth_error (p_eps (f_p s)) e = Some u -> u_failed u = false ->
+    u_conn_closes u <= 1
+    /\ (u_conn_closes u = 1 <-> u_closed u = true)
+    /\ (fquiescent s = true -> p_pool (f_p s) (u_key u) <> Some e -> u_conn_closes u = 1).
+Proof.
+  intros thr sched e u s Hn Hf. destruct (FI_frun thr sched) as (_ & B1 & B2 & _). fold s in B1, B2.
+  pose proof (B1 e u Hn) as C. rewrite Hf in C. destruct (u_closed u) eqn:Hc; rewrite C.
+  - repeat split; auto.
+  - repeat split; try lia; try discriminate. intros Q Hp. exfalso.
+    destruct (B2 e u Hn Hc) as [X|X]; [contradiction|]. exact (quiescent_no_hd s e Q X).
+Qed.
+
+(* the same without the quiescence premise: an unclosed endpoint outside the map is in the hands of exactly
+   the creator that built it (not yet published) or of the slow-path caller that is about to close it *)
+Lemma C13_fine_unclosed_held_proof :
+  forall thr sched e u,
+    let s := frun thr sched in
+    nth_error (p_eps (f_p s)) e = Some u -> u_closed u = false ->
+    p_pool (f_p s) (u_key u) = Some e
+    \/ exists i t, nth_error (f_thr s) i = Some t /\ f_lock s (g_k t) = Some i /\ g_k t = u_key u
+                   /\ (g_pc t = GHaveGen e \/ g_pc t = GBeforePublish e \/ g_pc t = GSlow (Some e)).
+Proof.
+  intros thr sched e u s Hn Hc. pose proof (FI_frun thr sched) as H. fold s in H.
+  pose proof H as (_ & _ & B2 & _). destruct (B2 e u Hn Hc) as [X|X]; auto. right.
+  destruct (hd_facts _ _ _ _ _ _ H X) as (j & tj & Hj & Hh & L & _ & (u1 & H1 & K)).
+  rewrite Hn in H1; inversion H1; subst u1. exists j, tj. repeat split; auto.
+  destruct Hh as [[Y|Y]|Y]; auto.
+Qed.
+
+(* ------------------------------------------------------------------------------------------ *)
+(* (2) never-resurrect                                                                          *)
+(* ------------------------------------------------------------------------------------------ *)
+Definition fine_never_resurrect_full : Prop :=
+  forall thr sched l i e, let s := frun thr sched in let s' := fstep s l in
+    f_hand s' = f_hand s ++ [(i, e)] ->
+    exists u, nth_error (p_eps (f_p s')) e = Some u /\ u_failed u = false /\ u_dead u = false /\ ~ In e (f_inval s').
+
+Lemma C13_fine_handout_invalidated_refuted_proof :
+  exists thr sched i e,
+    In (i, e) (f_hand (frun thr sched)) /\ In e (f_inval (frun thr sched))
+    /\ exists sched1 l sched2, sched = sched1 ++ l :: sched2 /\ In e (f_inval (frun thr sched1))
+                               /\ ~ In (i, e) (f_hand (frun thr sched1)).
+Proof.
+  exists fine_w1_thr, fine_w1, 0, 0. split; [vm_compute; auto|]. split; [vm_compute; auto|].
+  exists fine_w1_pre, (FThr 0), [FThr 0; FThr 0]. split; [reflexivity|].
+  destruct C13_fine_handout_invalidated_proof as (W1 & W2 & _). split; [exact W1|]. rewrite W2. intros [].
+Qed.
+
+Lemma C13_fine_handout_dead_refuted_proof :
+  exists thr sched l i e,
+    let s := frun thr sched in let s' := fstep s l in
+    f_hand s' = f_hand s ++ [(i, e)]
+    /\ exists u, nth_error (p_eps (f_p s')) e = Some u /\ u_failed u = false /\ u_dead u = true /\ u_closed u = true.
+Proof.
+  exists fine_w2_thr, (removelast fine_w2), (FThr 0), 0, 0. cbn zeta. split; [vm_compute; reflexivity|].
+  vm_compute. eexists. repeat split.
+Qed.
+
+Lemma C13_fine_never_resurrect_full_refuted_proof : ~ fine_never_resurrect_full.
+Proof.
+  intros F. specialize (F fine_w1_thr (removelast fine_w1) (FThr 0) 0 0). cbn zeta in F.
+  destruct F as (u & _ & _ & _ & N); [vm_compute; reflexivity|]. apply N. vm_compute. auto.
+Qed.
+
+Lemma app_self_neq {A} (l : list A) x : l = l ++ [x] -> False.
+Proof. intros H. apply (f_equal (@length A)) in H. rewrite app_length in H. cbn in H. lia. Qed.
+
+Lemma fop_hand s o : f_hand (fstep s (FOp o)) = f_hand s.
+Proof.
+  destruct o as [k d g out|h out|h t|d| | |dt]; cbn [fstep]; try reflexivity;
+    (destruct (nth_error (p_handles (f_p s)) h) as [e|]; [|reflexivity];
+     destruct (existsb (fun x => snd x =? e) (f_hand s)); reflexivity).
+Qed.
+
+Lemma reuse_handed' s e g u :
+  nth_error (p_eps s) e = Some u -> p_pool s (u_key u) = Some e -> u_failed u = false -> stale s u = false ->
+  u_closed u = false -> u_dead u = false -> u_conn_closes u = 0 ->
+  handed_ok (fst (ep_reuse s e g u)) e.
+Proof.
+  intros Hn Hp Hf Hst Hc Hd B1. unfold ep_reuse. cbn [fst].
+  set (s1 := set_ep s e (u_with_exp u (p_now s + nat_timeout))).
+  assert (Hn1 : nth_error (p_eps s1) e = Some (u_with_exp u (p_now s + nat_timeout))).
+  { unfold s1, set_ep, set_eps; cbn. rewrite nth_error_upd, Nat.eqb_refl, Hn. reflexivity. }
+  destruct (adopt_core_eps s1 e g) as (P&_&Ep&_&_&E).
+  destruct (E _ Hn1) as (u'&(K&F&C&D&N)&Se&Ge&Di&Eq).
+  exists u'. rewrite Eq, nth_error_upd, Nat.eqb_refl, Hn1. split; [reflexivity|].
+  cbn in K, F, C, D, N, Se, Ge, Di. rewrite F, D, C, N, K, P. repeat split; auto.
+  unfold stale in Hst. rewrite Hd in Hst. cbn in Hst.
+  unfold gen_current, survives in *. rewrite Ep, Ge, Di, Se. unfold s1; cbn.
+  destruct (match u_gen u with 0 => false | 1 => true | S (S n) => n =? p_epoch s (u_dialer u) end); cbn in *; auto.
+  destruct (u_sent u); cbn in *; auto.
+Qed.
+
+Definition handout_ok (s s' : fstate) (i e : nat) : Prop :=
+  exists u, nth_error (p_eps (f_p s')) e = Some u /\ u_failed u = false
+    /\ ((exists t, nth_error (f_thr s) i = Some t /\ (g_pc t = GStart \/ g_pc t = GWaitLock)) ->
+        u_dead u = false /\ (gen_current (f_p s') u || survives u) = true /\ p_pool (f_p s') (u_key u) = Some e).
+
+Lemma handout_step s l i e :
+  FI s -> f_hand (fstep s l) = f_hand s ++ [(i, e)] -> handout_ok s (fstep s l) i e.
+Proof.
+  intros H. destruct l as [j|o].
+  2:{ rewrite fop_hand. intros X. destruct (app_self_neq _ _ X). }
+  cbn [fstep]. unfold handout_ok. destruct s as [p thr lock hnd inv]. unfold FI in H. cbn [f_p f_thr f_lock f_hand] in *.
+  pose proof H as (A & B1 & B2 & T & Hh).
+  unfold fstep_thr. cbn [f_p f_thr f_lock f_hand f_inval].
+  destruct (nth_error thr j) as [t|] eqn:Ht; [|intros X; destruct (app_self_neq _ _ X)].
+  destruct t as [k d g out pc]. unfold set_gpc, hand, unlock. cbn [g_k g_d g_g g_out g_pc f_thr f_hand f_lock r_ret].
+  assert (Reuse : forall e0 u, p_pool p k = Some e0 -> nth_error (p_eps p) e0 = Some u -> u_failed u = false ->
+                               stale p u = false -> hnd ++ [(j, e0)] = hnd ++ [(i, e)] ->
+            exists u', nth_error (p_eps (fst (ep_reuse p e0 g u))) e = Some u' /\ u_failed u' = false
+              /\ ((exists t, nth_error thr i = Some t /\ (g_pc t = GStart \/ g_pc t = GWaitLock)) ->
+                  u_dead u' = false /\ (gen_current (fst (ep_reuse p e0 g u)) u' || survives u') = true
+                  /\ p_pool (fst (ep_reuse p e0 g u)) (u_key u') = Some e)).
+  { intros e0 u Hk Hn Hf Hst X. apply app_inv_head in X. inversion X; subst j e0.
+    destruct (A k e Hk) as (u0 & H0 & K & C & D). rewrite Hn in H0; inversion H0; subst u0.
+    destruct (reuse_handed' p e g u) as (u' & N1 & F1 & D1 & C1 & CC1 & G1 & P1); auto.
+    - congruence.
+    - rewrite (B1 e u Hn), Hf, C. reflexivity.
+    - exists u'. repeat split; auto. }
+  destruct pc as [| |oe|e0|e0|e0|r]; cbn [f_p f_hand f_thr].
+  - destruct (p_pool p k) as [e0|] eqn:Hk; [|intros X; destruct (app_self_neq _ _ X)].
+    destruct (nth_error (p_eps p) e0) as [u|] eqn:Hn; [|intros X; destruct (app_self_neq _ _ X)].
+    destruct (u_failed u) eqn:Hf.
+    + destruct (is_expired u (p_now p)); intros X; destruct (app_self_neq _ _ X).
+    + destruct (stale p u) eqn:Hst; [intros X; destruct (app_self_neq _ _ X)|].
+      apply (Reuse e0 u); auto.
+  - destruct (lock k) as [j0|]; [intros X; destruct (app_self_neq _ _ X)|].
+    destruct (p_pool p k) as [e0|] eqn:Hk; [|intros X; destruct (app_self_neq _ _ X)].
+    destruct (nth_error (p_eps p) e0) as [u|] eqn:Hn; [|intros X; destruct (app_self_neq _ _ X)].
+    destruct (u_failed u) eqn:Hf.
+    + destruct (is_expired u (p_now p)); intros X; destruct (app_self_neq _ _ X).
+    + destruct (stale p u) eqn:Hst; [intros X; destruct (app_self_neq _ _ X)|].
+      apply (Reuse e0 u); auto.
+  - destruct out as [|[|[|n]]]; cbn [f_hand]; try (intros X; destruct (app_self_neq _ _ X)).
+    + destruct (build_endpoint _ k d g) as [p2 e2]. intros X; destruct (app_self_neq _ _ X).
+    + destruct (build_endpoint _ k d g) as [p2 e2]. intros X; destruct (app_self_neq _ _ X).
+  - destruct (nth_error (p_eps p) e0) as [u|]; intros X; destruct (app_self_neq _ _ X).
+  - intros X; destruct (app_self_neq _ _ X).
+  - destruct (nth_error (p_eps p) e0) as [u|] eqn:Hn; [|intros X; destruct (app_self_neq _ _ X)].
+    cbn [f_p f_hand set_ep set_eps p_eps p_pool]. intros X. apply app_inv_head in X. inversion X; subst j e0.
+    pose proof (T i _ Ht) as Ti. unfold tc in Ti. cbn [g_pc g_k] in Ti. destruct Ti as (L & (u0 & H0 & K & F)).
+    rewrite Hn in H0; inversion H0; subst u0.
+    exists (u_with_registered u). rewrite (nth_upd_this _ _ _ _ Hn). repeat split; auto.
+    all: destruct H1 as (t & Ht' & Hpc); rewrite Ht in Ht'; inversion Ht'; subst t; cbn in Hpc; destruct Hpc; discriminate.
+  - intros X; destruct (app_self_neq _ _ X).
+Qed.
+
+(* the strongest true part of never-resurrect: a hand-out is never a failure marker; a hand-out that is a
+   reuse (fast path or re-check under createMu) is the live, current pool entry of its key.  The creator's
+   own return (pc GBeforeRegister) is unconditional — see the two refutations above. *)
+Lemma C13_fine_never_resurrect_partial_proof :
+  forall thr sched l i e, let s := frun thr sched in let s' := fstep s l in
+    f_hand s' = f_hand s ++ [(i, e)] ->
+    exists u, nth_error (p_eps (f_p s')) e = Some u /\ u_failed u = false
+      /\ ((exists t, nth_error (f_thr s) i = Some t /\ (g_pc t = GStart \/ g_pc t = GWaitLock)) ->
+          u_dead u = false /\ (gen_current (f_p s') u || survives u) = true /\ p_pool (f_p s') (u_key u) = Some e).
+Proof. intros thr sched l i e s s' X. apply (handout_step s l i e); auto. apply FI_frun. Qed.
+
+Print Assumptions C13_fine_close_once_proof.
+Print Assumptions C13_fine_unclosed_held_proof.
+Print Assumptions C13_fine_handout_invalidated_refuted_proof.
+Print Assumptions C13_fine_handout_dead_refuted_proof.
+Print Assumptions C13_fine_never_resurrect_full_refuted_proof.
+Print Assumptions C13_fine_never_resurrect_partial_proof.
